@@ -28,6 +28,7 @@ GEN_SPEC = {"items": [
     {"kind": "calls", "file": "lib/executors/chunkexecutor.go", "func": "chunkContainer.RemoveAll", "as": "sk_chunk_RemoveAll"},
     {"kind": "calls", "file": "lib/executors/chunkexecutor.go", "func": "chunkContainer.Execute", "as": "sk_chunk_Execute"},
     {"kind": "calls", "file": "lib/syncx/barrier.go", "func": "Barrier.Guard", "as": "sk_barrier_Guard"},
+    {"kind": "calls", "file": "lib/executors/lessexecutor.go", "func": "LessExecutor.DoOrDiscard", "as": "sk_less_DoOrDiscard"},
     # documented defaults
     {"kind": "const", "file": "lib/executors/bulkexecutor.go", "name": "defaultBulkTasks"},
     {"kind": "const", "file": "lib/executors/chunkexecutor.go", "name": "defaultChunkSize"},
@@ -61,7 +62,9 @@ QUICK_N = 300
 THOROUGH_N = 3000
 SHARD = 60
 DRIVER_TIMEOUT = 600
-RULE = ("BulkInserter rows may repeat byte for byte (5 rows incl. 2 repeats); 4 long-execute scripts per run (5 ms interval, "
+RULE = ("8 LessExecutor streams per run (thresholds 1 ns .. 2 years, virtual clock starting at 1 ns .. 1 h, steps around the "
+        "threshold); 2 Metrics periods of 65537 / 70000 tasks; BulkInserter Exec fails every k-th statement in 40% of the "
+        "scripts; BulkInserter rows may repeat byte for byte (5 rows incl. 2 repeats); 4 long-execute scripts per run (5 ms interval, "
         "the held execute goes on 60-90 ms of real and virtual time after Wait was called) and 4 Flush-Add-Flush scripts "
         "(configured and default Bulk / Chunk executors, no clock advance between the Flushes); 6 retire scripts per run (Add; a caller-side Flush whose execute is held; ticks over an idle period until the "
         "background flusher quits while that execute still runs; Wait from a third goroutine; later Adds restart a flusher); "
@@ -281,7 +284,10 @@ def _sqlx_case(rng, directed=None):
             else:
                 overlap(rng.randint(0, 30), rng.randint(0, 30), rng.randint(0, 120))
     ops.append({"op": "flush"})
-    return {"target": "sqlx", "suffix": rng.random() < 0.5, "chunk": False, "max": M, "ops": ops}
+    case = {"target": "sqlx", "suffix": rng.random() < 0.5, "chunk": False, "max": M, "ops": ops}
+    if directed == 1 or (directed is None and rng.random() < 0.4):
+        case["fail_every"] = rng.choice([1, 1, 2, 3])     # Exec errors: handed to the connection once, reported once
+    return case
 
 
 def _stat_case(rng):
@@ -457,6 +463,31 @@ def _flushflush_cases(rng):
     return out
 
 
+def _less_cases(rng, tier):
+    """LessExecutor streams on the virtual clock: thresholds from 1 ns to 2 years (longer than timex.Now()), the
+    clock starting near zero or at 1 h; steps around the threshold"""
+    out = []
+    YEAR = 365 * 24 * 3600 * SECOND
+    for _ in range(8 if tier != "thorough" else 40):
+        thr = rng.choice([1, 1000, SECOND, 60 * SECOND, 3600 * SECOND, 2 * YEAR])
+        start = rng.choice([1, 2, 1000, 3600 * SECOND])
+        steps = []
+        for _ in range(rng.randint(3, 10)):
+            steps.append(rng.choice([0, 1, thr - 1, thr, thr + 1, thr // 2, 2 * thr, thr // 3 + 1]))
+        out.append({"chunk": False, "max": 1, "ops": [], "less": {"threshold": thr, "start": start, "steps": steps}})
+    return out
+
+
+def _bigstat_cases(rng, tier):
+    """more than 65536 tasks in ONE Metrics period"""
+    out = []
+    for n in ([65537, 70000] if tier != "thorough" else [65536, 65537, 70000, 131073]):
+        ops = [{"op": "setwriter"}, {"op": "addmany", "n": n}, {"op": rng.choice(["flush", "tick"])},
+               {"op": "addmany", "n": rng.randint(1, 9)}, {"op": "flush"}]
+        out.append({"target": "stat", "chunk": False, "max": 10 ** 9, "log": False, "bigstat": True, "ops": ops})
+    return out
+
+
 def _before(rng, first=None):
     """executors created (with explicit options) before the observed one"""
     out = [first] if first else []
@@ -524,7 +555,7 @@ def _users(rng, tier):
 
 
 def generate(rng, tier, n):
-    cases = _directed(rng) + _indep_cases(rng, tier) + [_retire_case(rng) for _ in range(6 if tier != "thorough" else 24)] + [_longexec_case(rng) for _ in range(4 if tier != "thorough" else 12)] + _flushflush_cases(rng) + _users(rng, tier) + [_hold_case(rng) for _ in range(HOLD_N * (4 if tier == "thorough" else 1))]
+    cases = _directed(rng) + _less_cases(rng, tier) + _bigstat_cases(rng, tier) + _indep_cases(rng, tier) + [_retire_case(rng) for _ in range(6 if tier != "thorough" else 24)] + [_longexec_case(rng) for _ in range(4 if tier != "thorough" else 12)] + _flushflush_cases(rng) + _users(rng, tier) + [_hold_case(rng) for _ in range(HOLD_N * (4 if tier == "thorough" else 1))]
     if tier == "thorough":
         cases += _exhaustive()
     while len(cases) < n:
@@ -581,7 +612,7 @@ def _walk(ops):
 
 
 TAIL = "%s false 0%%nat [] None"     # c_model c_stat c_drops c_reports c_big
-NOIVL = " [] (1000000000)%Z"                  # c_ivl c_ivl_exp
+NOIVL = " [] (1000000000)%Z None"                  # c_ivl c_ivl_exp
 
 
 def _ivl(case, obs):
@@ -591,7 +622,7 @@ def _ivl(case, obs):
         exp = "default_interval"
     else:
         exp = cZ((case.get("interval_ms") or 1000) * 10 ** 6)
-    return " %s %s" % (clist(seen), exp)
+    return " %s %s None" % (clist(seen), exp)
 
 
 def _big_term(gmax, ops, obs):
@@ -703,7 +734,29 @@ def _encode_stat(case, obs):
         cnat(2 if seq else 1), cnat(obs.get("drops", 0)), clist(reps)) + NOIVL
 
 
+EMPTY = "mkcase false (1)%%Z [] false [] 0%%nat [] [] [] [] [] %s 0%%nat 1%%nat false 0%%nat [] None [] (0)%%Z (Some (%s))"
+
+
+def _encode_less(case, obs):
+    calls = obs.get("less")
+    bad = calls is None or any(c[1] != c[2] for c in calls)     # DoOrDiscard's answer and the callback agree
+    body = "ALess %s %s" % (cZ(case["less"]["threshold"]), clist([cpair(cZ(c[0]), cbool(c[1] == 1)) for c in (calls or [])]))
+    return EMPTY % (cbool(bad), body)
+
+
+def _encode_bigstat(case, obs):
+    added = sum(o["n"] for o in case["ops"] if o["op"] == "addmany")
+    bad = "batches" not in obs or bool(obs["hung"])
+    periods = ["(%s, %s, %s, %s)" % (cZ(b.get("many", 0) + len(b["ids"])), cZ(b["count"]), cZ(b["dur_ms"]), cZ(b["sum_ms"]))
+               for b in obs.get("batches", [])]
+    return EMPTY % (cbool(bad), "ABigStat %s %s" % (cZ(added), clist(periods)))
+
+
 def encode(case, obs):
+    if case.get("less"):
+        return _encode_less(case, obs)
+    if case.get("bigstat"):
+        return _encode_bigstat(case, obs)
     tgt = case.get("target", "pe")
     if "adds" not in obs:
         obs = {"adds": [], "calls": [], "ticks": [], "batches": [], "perop": [], "hung": obs.get("driver_panic") or obs.get("error") or "?", "pending": 0}
@@ -768,6 +821,8 @@ def encode(case, obs):
 
 
 def nontrivial(case, obs):
+    if case.get("less"):
+        return len({c[1] for c in obs.get("less", [])}) == 2
     if "adds" not in obs or obs["hung"]:
         return False
     if case.get("target") == "sqlx":
@@ -789,6 +844,10 @@ def nontrivial(case, obs):
 
 
 def bucket(case, obs):
+    if case.get("less"):
+        return ["target:less", "less-threshold=%d" % case["less"]["threshold"], "less-start=%d" % case["less"]["start"]]
+    if case.get("bigstat"):
+        return ["target:stat", "stat:one-period-of-%d-tasks" % max(o.get("n", 0) for o in case["ops"])]
     if case.get("target") in ("sqlx", "stat"):
         out = ["target:" + case["target"]] + ["op:" + case["target"] + "." + o["op"] for o in case["ops"]]
         if case["target"] == "stat":
@@ -826,7 +885,7 @@ def bucket(case, obs):
 
 
 def classify(case, obs):
-    if case.get("target") in ("sqlx", "stat"):
+    if case.get("less") or case.get("target") in ("sqlx", "stat"):
         return None
     return _classify_pe(case, obs)
 
